@@ -197,6 +197,9 @@ var vfPolys = []vfPolyCase{
 	{"hole crosses the box edge", orb.Polygon{{{-2, 0.5}, {6, 0.5}, {6, 6}, {-2, 6}, {-2, 0.5}}, {{3, 1}, {3, 3}, {5, 3}, {5, 1}, {3, 1}}}},
 	{"hole wholly outside the box", orb.Polygon{{{-2, 0.5}, {6, 0.5}, {6, 6}, {-2, 6}, {-2, 0.5}}, {{5, 5}, {5, 5.5}, {5.5, 5.5}, {5, 5}}}},
 	{"two pieces, hole in one of them", orb.Polygon{{{-1, -1}, {5, -1}, {5, 1}, {1, 1}, {1, 3}, {5, 3}, {5, 5}, {-1, 5}, {-1, -1}}, {{2, 3.25}, {2, 3.75}, {3, 3.75}, {3, 3.25}, {2, 3.25}}}},
+	{"two pieces, hole in the other piece", orb.Polygon{{{-1, -1}, {5, -1}, {5, 1}, {1, 1}, {1, 3}, {5, 3}, {5, 5}, {-1, 5}, {-1, -1}}, {{2, 0.25}, {2, 0.75}, {3, 0.75}, {3, 0.25}, {2, 0.25}}}},
+	{"two pieces on the left side, hole in the lower arm", orb.Polygon{{{-3, 0.5}, {3, 0.5}, {3, 1.5}, {-1, 1.5}, {-1, 2.5}, {3, 2.5}, {3, 3.5}, {-3, 3.5}, {-3, 0.5}}, {{1, 0.75}, {1, 1.25}, {2, 1.25}, {2, 0.75}, {1, 0.75}}}},
+	{"two pieces on the left side, hole in the upper arm", orb.Polygon{{{-3, 0.5}, {3, 0.5}, {3, 1.5}, {-1, 1.5}, {-1, 2.5}, {3, 2.5}, {3, 3.5}, {-3, 3.5}, {-3, 0.5}}, {{1, 2.75}, {1, 3.25}, {2, 3.25}, {2, 2.75}, {1, 2.75}}}},
 	{"polygon inside with hole", orb.Polygon{{{1, 1}, {3, 1}, {3, 3}, {1, 3}, {1, 1}}, {{1.5, 1.5}, {1.5, 2.5}, {2.5, 2.5}, {2.5, 1.5}, {1.5, 1.5}}}},
 }
 
